@@ -1,9 +1,11 @@
 package serversim
 
 import (
+	"bytes"
 	"context"
 	"errors"
 	"fmt"
+	"log/slog"
 	"net/http"
 	"net/http/httptest"
 	"strconv"
@@ -18,7 +20,7 @@ import (
 )
 
 const ruleC16a = "Session: rapid-generated writer shape (Flusher | FlushError | both | none, wrapped 0..3 times behind Unwrap) x 1..8 operations Send(message)/Flush (12% of the messages carry a data line of 512..70000 bytes) x fault plan (k-th underlying Write fails after accepting a prefix; j-th underlying flush fails where the shape can report it); an ordered log of Header/Write/flush calls is checked: upgrade refused iff no flushing writer is reachable; no body byte before a successful flush with Content-Type text/event-stream in the header; the header is not re-assigned after that (a tampered value must survive); body == concatenation of the reference encodings (a prefix for the failing Send); Flush()==nil implies every byte written is covered by a successful flush; every operation returns exactly the first underlying error it caused, else nil. Non-trivial: >= 2 Sends with a Flush between them and a fault at an operation index >= 1."
-const ruleC16b = "Server: rapid-generated Last-Event-Id header values (absent, empty, valid, with CR/LF, several values) x OnSession (nil | accept with 0..3 topics | reject after writing a status/body or nothing) x provider stub (records the Subscription, sends 0..3 messages through it, returns nil or an error before/after sending) x writer shape; Subscription fields, rejection silence and the 500 answers are checked against the statement. Non-trivial: the header value is non-trivial (present, not a plain token) and OnSession is set. Distinct: FNV-64 of the JSON of the case."
+const ruleC16b = "Server: rapid-generated Last-Event-Id header values (absent, empty, valid, with CR/LF, several values) x OnSession (nil | accept with 0..3 topics | reject after writing a status/body or nothing) x provider stub (records the Subscription, sends 0..3 messages through it, returns nil or an error before/after sending) x writer shape x Server.Logger (unset | returning nil | a real slog logger); Subscription fields, rejection silence and the 500 answers are checked against the statement. Non-trivial: the header value is non-trivial (present, not a plain token) and OnSession is set. Distinct: FNV-64 of the JSON of the case."
 
 type SessOp struct {
 	Send bool     `json:"send"`
@@ -259,6 +261,7 @@ type C16SrvCase struct {
 	ProvErr         string    `json:"proverr"` // none | before | after
 	CancelFirst     bool      `json:"cancelfirst,omitempty"`
 	FirstFlushFails bool      `json:"firstflushfails,omitempty"` // the writer's very first flush fails (shapes that can report it)
+	Logger          string    `json:"logger,omitempty"`          // "" no Logger | nil: Logger returns nil | slog: Logger returns a real logger (writing to a buffer of its own)
 }
 
 func genC16Srv(t *rapid.T) C16SrvCase {
@@ -287,6 +290,7 @@ func genC16Srv(t *rapid.T) C16SrvCase {
 	c.ProvSend = stats.Pick(t, 4, "provsend")
 	c.ProvErr = stats.From(t, []string{"none", "none", "before", "after"}, "proverr")
 	c.FirstFlushFails = stats.Pct(t, "firstflushfails") >= 80
+	c.Logger = stats.From(t, []string{"", "", "", "nil", "slog", "slog"}, "logger")
 	return c
 }
 
@@ -344,6 +348,15 @@ func checkC16Srv(t *testing.T, c C16SrvCase) *stats.Verdict {
 	}
 	prov := &stubProvider{send: c.ProvSend, errMode: c.ProvErr}
 	srv := &sse.Server{Provider: prov}
+	var logBuf bytes.Buffer
+	switch c.Logger {
+	case "nil":
+		srv.Logger = func(*http.Request) *slog.Logger { return nil }
+	case "slog":
+		lg := slog.New(slog.NewTextHandler(&logBuf, &slog.HandlerOptions{Level: slog.LevelDebug}))
+		srv.Logger = func(*http.Request) *slog.Logger { return lg }
+	}
+	v.Class("logger:" + c.Logger)
 	onSessionCalls := 0
 	var onSessionLogLen int
 	switch c.OnSession {
